@@ -842,6 +842,62 @@ class FakeOS:
         raise ModelGap("os.%s" % k)
 
 
+class FakeTempfile:
+    """tempfile on the modelled file system: every temporary file is an ordinary create + remove in the operation log"""
+    _verif_stand_in = "tempfile-module"
+
+    def __init__(self, w):
+        self._w, self._n = w, 0
+        self.tempdir = None
+
+    def gettempdir(self):
+        if "/tmp" not in self._w.nodes:
+            self._w.mkdirs("/tmp")
+        return "/tmp"
+
+    def _name(self, suffix, prefix, dir):
+        self._n += 1
+        return posixpath.join(tokens.plain(dir) if dir is not None else self.gettempdir(), "%s%06d%s" % (prefix or "tmp", self._n, suffix or ""))
+
+    def mkstemp(self, suffix=None, prefix=None, dir=None, text=False):
+        p = self._name(suffix, prefix, dir)
+        return FakeOS(self._w).open(p, FakeOS.O_WRONLY | FakeOS.O_CREAT | FakeOS.O_EXCL), p
+
+    def mkdtemp(self, suffix=None, prefix=None, dir=None):
+        p = self._name(suffix, prefix, dir)
+        self._w.mkdir(p)
+        return p
+
+    def NamedTemporaryFile(self, mode="w+b", buffering=-1, encoding=None, newline=None, suffix=None, prefix=None, dir=None, delete=True, **kw):
+        w, p = self._w, self._name(suffix, prefix, dir)
+        f = w.open(p, "wb" if "b" in mode else "w")
+
+        class Tmp:
+            name = p
+
+            def __getattr__(s, k):
+                return getattr(f, k)
+
+            def close(s):
+                f.close()
+                if delete and w.exists(p):
+                    w.remove(p)
+
+            def __enter__(s):
+                return s
+
+            def __exit__(s, *a):
+                s.close()
+                return False
+
+        return Tmp()
+
+    TemporaryFile = NamedTemporaryFile
+
+    def __getattr__(self, k):
+        raise ModelGap("tempfile.%s" % k)
+
+
 # --------------------------------------------------------------------------------------------- injection
 def _modules():
     import ascmhl.commands as C
@@ -924,6 +980,8 @@ def install(world, summarise_c4=True, xsd=None):
             ins.set(m, "timezone", fdt.timezone)
         if m.__dict__.get("time") is _real_time or kind(m.__dict__.get("time")) == "time-module":
             ins.set(m, "time", ftime)
+        if getattr(m.__dict__.get("tempfile"), "__name__", "") == "tempfile" or kind(m.__dict__.get("tempfile")) == "tempfile-module":
+            ins.set(m, "tempfile", FakeTempfile(world))
         if getattr(m.__dict__.get("tz"), "__name__", "") == "dateutil.tz" or kind(m.__dict__.get("tz")) == "tz-module":
             ins.set(m, "tz", clock.FakeTzModule(world))
     ins.set(XP, "dateutil", clock.FakeDateutil(world))
